@@ -107,6 +107,7 @@ func (e *Env) Close() {
 // ---------------------------------------------------------------------------
 
 type Pkg struct {
+	GoName    string // Go package name (normally = Name)
 	Name      string
 	Dir       string
 	GenOK     bool
@@ -173,14 +174,23 @@ func (b *Batch) Add(files map[string]string, internals, stub string, tag any) (*
 	if err := os.MkdirAll(p.Dir, 0o755); err != nil {
 		return nil, err
 	}
+	// The Go package is named after its directory unless the pseudo file
+	// "__pkgname__" asks for another name (the import path stays batch/gNNN).
+	p.GoName = name
+	if n, ok := files["__pkgname__"]; ok {
+		p.GoName = n
+	}
 	for fn, src := range files {
-		src = strings.ReplaceAll(src, "package PKGNAME", "package "+name)
+		if fn == "__pkgname__" {
+			continue
+		}
+		src = strings.ReplaceAll(src, "package PKGNAME", "package "+p.GoName)
 		if err := os.WriteFile(filepath.Join(p.Dir, fn), []byte(src), 0o644); err != nil {
 			return nil, err
 		}
 	}
 	if stub != "" {
-		s := strings.ReplaceAll(stub, "package PKGNAME", "package "+name)
+		s := strings.ReplaceAll(stub, "package PKGNAME", "package "+p.GoName)
 		if err := os.WriteFile(filepath.Join(p.Dir, "internals.go"), []byte(s), 0o644); err != nil {
 			return nil, err
 		}
@@ -320,7 +330,7 @@ func (b *Batch) Build(race bool) error {
 			if real && p.Internals != "" {
 				src = p.Internals
 			}
-			src = strings.ReplaceAll(src, "package PKGNAME", "package "+p.Name)
+			src = strings.ReplaceAll(src, "package PKGNAME", "package "+p.GoName)
 			os.WriteFile(filepath.Join(p.Dir, "internals.go"), []byte(src), 0o644)
 		}
 	}
@@ -333,7 +343,7 @@ func (b *Batch) Build(race bool) error {
 		n := 0
 		for _, p := range b.Pkgs {
 			if p.GenOK && p.BuildErr == "" {
-				fmt.Fprintf(&sb, "\t%q\n", "batch/"+p.Name)
+				fmt.Fprintf(&sb, "\t%s %q\n", p.Name, "batch/"+p.Name)
 				n++
 			}
 		}
